@@ -95,7 +95,13 @@ def _parse_printed(text):
         try:
             return int(tok)
         except ValueError:
-            return {"other": tok[:30]}
+            pass
+        import re as _re
+        m = _re.match(r"^(\w+)\((.*)\)$", tok)
+        if m and m.group(1) in EXC_IDS:
+            inner = m.group(2)
+            return {"excv": EXC_IDS[m.group(1)], "payload": _parse_printed(inner) if inner else None}
+        return {"other": tok[:30]}
 
     return val()
 
